@@ -151,3 +151,118 @@ package updown
 //@     decreases len(recv(cIn)) - counter
 //@   ensures [c12.order] len(sent(cOut)) == len(recv(cIn)) && forall(k, 0, len(recv(cIn)), sent(cOut)[k] == recv(cIn)[posOf(k)] && sent(cOut)[k].idx == k)
 //@   ensures [done] len(sent(cReorderDone)) == 1
+
+//@ # C08: option normalisation and final size allocation (pure integer code over [4]int; loops over fixed-size arrays are
+//@ # unrolled exactly by the engine)
+//@ func sum4
+//@   ensures result == a[0] + a[1] + a[2] + a[3]
+//@ func allZero
+//@   loop 1:
+//@     invariant forall(j, 0, range_i, s[j] == 0)
+//@   ensures result == forall(j, 0, len(s), s[j] == 0)
+//@ func allGreaterThanEqualTo4
+//@   ensures result == (a[0] >= b[0] && a[1] >= b[1] && a[2] >= b[2] && a[3] >= b[3])
+//@ func stringInArray
+//@   loop 1:
+//@     invariant forall(j, 0, i, sa[j] != s)
+//@   ensures result == exists(j, 0, len(sa), sa[j] == s)
+//@ func isSiteAmb
+//@   requires len(a) % 2 == 0
+//@   loop 1:
+//@     invariant 0 <= i && i % 2 == 0 && forall(m, 0, i / 2, !(pos >= a[2*m] && pos <= a[2*m+1]))
+//@   ensures result == exists(m, 0, len(a) / 2, pos >= a[2*m] && pos <= a[2*m+1])
+
+//@ spec imin(a int, b int) int = ite(a <= b, a, b)
+//@ # balance: size[i] <= observed[i]; with --no-fill each bin gets min(requested, available); when no bin is short the
+//@ # requested sizes are returned; otherwise shortfalls are made up from bins with spare candidates, one at a time in
+//@ # round-robin order, until the total reaches sizetotal or the spare supply is exhausted: the total is
+//@ # min(sizetotal, sum of observed) and no bin gets less than min(requested, available). Terminates.
+//@ func balance
+//@   requires sizeIdeal[0] >= 0 && sizeIdeal[1] >= 0 && sizeIdeal[2] >= 0 && sizeIdeal[3] >= 0
+//@   requires sizeObserved[0] >= 0 && sizeObserved[1] >= 0 && sizeObserved[2] >= 0 && sizeObserved[3] >= 0
+//@   requires (sizeObserved[0] >= sizeIdeal[0] && sizeObserved[1] >= sizeIdeal[1] && sizeObserved[2] >= sizeIdeal[2] && sizeObserved[3] >= sizeIdeal[3] && sizetotal >= sizeIdeal[0] + sizeIdeal[1] + sizeIdeal[2] + sizeIdeal[3]) || sizetotal > imin(sizeIdeal[0], sizeObserved[0]) + imin(sizeIdeal[1], sizeObserved[1]) + imin(sizeIdeal[2], sizeObserved[2]) + imin(sizeIdeal[3], sizeObserved[3])
+//@   loop 3:
+//@     invariant n == 0 || n == 1
+//@     invariant forall(i, 0, 4, sizeAvail[i] >= 0 && size[i] >= imin(sizeIdeal[i], sizeObserved[i]) && ite(sizeObserved[i] > sizeIdeal[i], size[i] + sizeAvail[i] == sizeObserved[i], size[i] == sizeObserved[i] && sizeAvail[i] == 0))
+//@     invariant size[0] + size[1] + size[2] + size[3] <= sizetotal && implies(n == 1, size[0] + size[1] + size[2] + size[3] < sizetotal)
+//@     invariant implies(n == 0, size[0] + size[1] + size[2] + size[3] == sizetotal || sizeAvail[0] + sizeAvail[1] + sizeAvail[2] + sizeAvail[3] == 0)
+//@     decreases sizeAvail[0] + sizeAvail[1] + sizeAvail[2] + sizeAvail[3] + n
+//@   ensures [bounded] forall(i, 0, 4, result[i] <= sizeObserved[i] && result[i] >= imin(sizeIdeal[i], sizeObserved[i]))
+//@   ensures [nofill] implies(nofill, forall(i, 0, 4, result[i] == imin(sizeIdeal[i], sizeObserved[i])))
+//@   ensures [noshort] implies(sizeObserved[0] >= sizeIdeal[0] && sizeObserved[1] >= sizeIdeal[1] && sizeObserved[2] >= sizeIdeal[2] && sizeObserved[3] >= sizeIdeal[3], forall(i, 0, 4, result[i] == sizeIdeal[i]))
+//@   ensures [total] implies(!nofill && !(sizeObserved[0] >= sizeIdeal[0] && sizeObserved[1] >= sizeIdeal[1] && sizeObserved[2] >= sizeIdeal[2] && sizeObserved[3] >= sizeIdeal[3]), result[0] + result[1] + result[2] + result[3] == imin(sizetotal, sizeObserved[0] + sizeObserved[1] + sizeObserved[2] + sizeObserved[3]))
+//@   ensures [cap] result[0] + result[1] + result[2] + result[3] <= sizetotal
+
+//@ # checkArgs: the option-normalisation table of the property statement
+//@ func checkArgs
+//@   requires sizetotal >= 0
+//@   ensures [nothing] implies(sizetotal == 0 && sizeup == 0 && sizedown == 0 && sizeside == 0 && sizesame == 0 && distpush == 0 && distup == 0 && distdown == 0 && distside == 0 && distall == 0, result3 != nil)
+//@   ensures [total.split] implies(result3 == nil && sizetotal > 0, result1[1] == sizetotal / 4 && result1[2] == sizetotal / 4 && result1[3] == sizetotal / 4 && result1[0] == sizetotal - 3 * (sizetotal / 4))
+//@   ensures [total.sum] implies(result3 == nil && sizetotal > 0, result1[0] + result1[1] + result1[2] + result1[3] == sizetotal)
+//@   ensures [sizes] implies(result3 == nil && sizetotal == 0 && !(sizeup == 0 && sizedown == 0 && sizeside == 0 && sizesame == 0), result1[0] == ite(sizesame == -1, 2147483647, sizesame) && result1[1] == ite(sizeup == -1, 2147483647, sizeup) && result1[2] == ite(sizedown == -1, 2147483647, sizedown) && result1[3] == ite(sizeside == -1, 2147483647, sizeside))
+//@   ensures [unlimited] implies(result3 == nil && sizetotal == 0 && sizeup == 0 && sizedown == 0 && sizeside == 0 && sizesame == 0, result1[0] == 2147483647 && result1[1] == 2147483647 && result1[2] == 2147483647 && result1[3] == 2147483647)
+//@   ensures [dist.all] implies(result3 == nil && distall > 0, result2[0] == 0 && result2[1] == distall && result2[2] == distall && result2[3] == distall)
+//@   ensures [dist.each] implies(result3 == nil && distall <= 0 && !(distup == 0 && distdown == 0 && distside == 0), result2[0] == 0 && result2[1] == distup && result2[2] == distdown && result2[3] == distside)
+//@   ensures [dist.none] implies(result3 == nil && distall <= 0 && distup == 0 && distdown == 0 && distside == 0, result2[0] == 2147483647 && result2[1] == 2147483647 && result2[2] == 2147483647 && result2[3] == 2147483647)
+
+//@ # membership by binary search on ascending lists
+//@ func posOverlapBinarySearch
+//@   requires sorted(list)
+//@   ensures result == exists(j, 0, len(list), list[j] == pos)
+//@ func snpOverlapBinarySearch
+//@   requires sorted(list)
+//@   ensures result == exists(j, 0, len(list), list[j] == snp)
+
+//@ # whichWay: direction and threshold arithmetic from the 4-entry table (the meaning of the table entries in terms of
+//@ # alignment columns is NOT decided here: bounded oracle only)
+//@ func whichWay
+//@   requires len(q.snps) == len(q.snpsPos) && len(t.snps) == len(t.snpsPos) && len(q.ambs) % 2 == 0 && len(t.ambs) % 2 == 0
+//@   requires sorted(q.snpsSorted)
+//@   requires sorted(t.snpsSorted)
+//@   requires sorted(q.snpsPos)
+//@   loop 1:
+//@     invariant table[0] >= 0 && table[1] >= 0 && table[2] >= 0 && table[3] >= 0 && table[0] == len(d) && table[2] == 0 && table[0] + table[1] + table[3] == range_i
+//@     invariant forall(j, 0, len(d), exists(m, 0, range_i, d[j] == q.snpsPos[m]))
+//@     invariant forall(a, 0, len(d), forall(b, a + 1, len(d), d[a] <= d[b]))
+//@     invariant implies(len(d) > 0 && range_i > 0, d[len(d)-1] <= q.snpsPos[range_i-1])
+//@   loop 2:
+//@     invariant table[0] >= 0 && table[1] >= 0 && table[2] >= 0 && table[3] >= 0 && table[0] == len(d) && 0 <= d_plus && d_plus <= table[2] && table[2] <= range_i
+//@   ensures 0 <= result1 && result1 <= 3 && result2 >= -1
+//@   ensures [local.threshold] (result2 == -1) == (float64(table[3]) / float64(sum) > float64(thresh))
+//@   ensures [local.direction] implies(result2 != -1, result1 == ite(table[0] == 0 && table[2] == 0, 0, ite(table[0] > 0 && table[2] == 0, 1, ite(table[0] == 0, 2, 3))))
+//@   ensures [local.distance] implies(result2 != -1, result2 == len(d) + d_plus && result2 >= table[0] && result2 <= table[0] + table[2])
+
+//@ spec udLess(di int, ai int, dj int, aj int) bool = di < dj || (di == dj && ai < aj)
+//@ func rearrangeCatchment
+//@   requires 1 <= catchmentSize && catchmentSize <= len(nS.catchment)
+//@   modifies nS.catchment
+//@   after call:SliceStable#1: assert [hint.inverse] forall(i, 0, len(nS.catchment), 0 <= sortinv(i) && sortinv(i) < len(nS.catchment) && sortperm(sortinv(i)) == i && nS.catchment[sortinv(i)] == old(nS.catchment[i]))
+//@   ensures len(nS.catchment) == catchmentSize && sameref(nS.catchment, old(nS.catchment))
+//@   ensures [sorted] forall(a, 0, catchmentSize, forall(b, a + 1, catchmentSize, !udLess(nS.catchment[b].distance, nS.catchment[b].ambCount, nS.catchment[a].distance, nS.catchment[a].ambCount)))
+//@   ensures [last] nS.maxDist == nS.catchment[catchmentSize-1].distance && nS.minAmbig == nS.catchment[catchmentSize-1].ambCount
+//@   ensures [members] forall(j, 0, catchmentSize, exists(i, 0, old(len(nS.catchment)), nS.catchment[j] == old(nS.catchment[i])))
+//@   ensures [dropped] forall(i, 0, old(len(nS.catchment)), exists(j, 0, catchmentSize, nS.catchment[j] == old(nS.catchment[i])) || !udLess(old(nS.catchment[i].distance), old(nS.catchment[i].ambCount), nS.catchment[catchmentSize-1].distance, nS.catchment[catchmentSize-1].ambCount))
+
+//@ # findUpDownCatchment: four bounded bins. Proved: no bin ever exceeds sizetotal; a full bin is sorted by (distance,
+//@ # ambiguity count) and maxDist/minAmbig describe its last element; the bins' arrays never alias; the final sizes are
+//@ # those computed by balance (whose contract gives min(requested, available) under --no-fill, the total cap and the fill
+//@ # rule) and each reported bin is a prefix of its sorted candidates.
+//@ func findUpDownCatchment
+//@   modifies cOut
+//@   requires sizeArray[0] >= 0 && sizeArray[1] >= 0 && sizeArray[2] >= 0 && sizeArray[3] >= 0 && sizeArray[0] + sizeArray[1] + sizeArray[2] + sizeArray[3] >= 1
+//@   requires len(recv(cIn)) < 2147483647
+//@   requires len(q.snps) == len(q.snpsPos) && len(q.ambs) % 2 == 0
+//@   requires sorted(q.snpsSorted) && sorted(q.snpsPos)
+//@   requires forall(t, 0, len(recv(cIn)), len(recv(cIn)[t].snps) == len(recv(cIn)[t].snpsPos) && len(recv(cIn)[t].ambs) % 2 == 0)
+//@   requires forall(t, 0, len(recv(cIn)), sorted(recv(cIn)[t].snpsSorted))
+//@   loop 2:
+//@     invariant len(sent(cOut)) == 0 && neighbours.qname == q.id && neighbours.qidx == q.idx && sizetotal >= 1
+//@     invariant len(neighbours.same.catchment) <= sizetotal && freshslice(neighbours.same.catchment) && len(neighbours.up.catchment) <= sizetotal && freshslice(neighbours.up.catchment) && len(neighbours.down.catchment) <= sizetotal && freshslice(neighbours.down.catchment) && len(neighbours.side.catchment) <= sizetotal && freshslice(neighbours.side.catchment)
+//@     invariant disjoint(neighbours.same.catchment, neighbours.up.catchment) && disjoint(neighbours.same.catchment, neighbours.down.catchment) && disjoint(neighbours.same.catchment, neighbours.side.catchment) && disjoint(neighbours.up.catchment, neighbours.down.catchment) && disjoint(neighbours.up.catchment, neighbours.side.catchment) && disjoint(neighbours.down.catchment, neighbours.side.catchment)
+//@     invariant len(neighbours.same.catchment) + len(neighbours.up.catchment) + len(neighbours.down.catchment) + len(neighbours.side.catchment) <= range_i
+//@     invariant implies(len(neighbours.same.catchment) == sizetotal, neighbours.same.maxDist == neighbours.same.catchment[sizetotal-1].distance && neighbours.same.minAmbig == neighbours.same.catchment[sizetotal-1].ambCount && forall(a, 0, sizetotal, forall(b, a + 1, sizetotal, !udLess(neighbours.same.catchment[b].distance, neighbours.same.catchment[b].ambCount, neighbours.same.catchment[a].distance, neighbours.same.catchment[a].ambCount))))
+//@     invariant implies(len(neighbours.up.catchment) == sizetotal, neighbours.up.maxDist == neighbours.up.catchment[sizetotal-1].distance && neighbours.up.minAmbig == neighbours.up.catchment[sizetotal-1].ambCount && forall(a, 0, sizetotal, forall(b, a + 1, sizetotal, !udLess(neighbours.up.catchment[b].distance, neighbours.up.catchment[b].ambCount, neighbours.up.catchment[a].distance, neighbours.up.catchment[a].ambCount))))
+//@     invariant implies(len(neighbours.down.catchment) == sizetotal, neighbours.down.maxDist == neighbours.down.catchment[sizetotal-1].distance && neighbours.down.minAmbig == neighbours.down.catchment[sizetotal-1].ambCount && forall(a, 0, sizetotal, forall(b, a + 1, sizetotal, !udLess(neighbours.down.catchment[b].distance, neighbours.down.catchment[b].ambCount, neighbours.down.catchment[a].distance, neighbours.down.catchment[a].ambCount))))
+//@     invariant implies(len(neighbours.side.catchment) == sizetotal, neighbours.side.maxDist == neighbours.side.catchment[sizetotal-1].distance && neighbours.side.minAmbig == neighbours.side.catchment[sizetotal-1].ambCount && forall(a, 0, sizetotal, forall(b, a + 1, sizetotal, !udLess(neighbours.side.catchment[b].distance, neighbours.side.catchment[b].ambCount, neighbours.side.catchment[a].distance, neighbours.side.catchment[a].ambCount))))
+//@   ensures len(sent(cOut)) == 1 && sent(cOut)[0].qname == q.id && sent(cOut)[0].qidx == q.idx
+//@   ensures [cap] len(sent(cOut)[0].same.catchment) + len(sent(cOut)[0].up.catchment) + len(sent(cOut)[0].down.catchment) + len(sent(cOut)[0].side.catchment) <= ite(sizeArray[0] == 2147483647 || sizeArray[1] == 2147483647 || sizeArray[2] == 2147483647 || sizeArray[3] == 2147483647, 2147483647, sizeArray[0] + sizeArray[1] + sizeArray[2] + sizeArray[3])
